@@ -84,8 +84,8 @@ func c29Run(c c29Case) *eng.Fail {
 			sp := pos
 			// walk back over this line's non-space chars
 			cnt := 0
-			for _, ch := range body {
-				if ch != ' ' {
+			for bi := 0; bi < len(body); bi++ { // bytes, not runes: format counts bytes
+				if body[bi] != ' ' {
 					cnt++
 				}
 			}
@@ -118,7 +118,7 @@ func c29Run(c c29Case) *eng.Fail {
 
 func init() {
 	checks["C29"] = eng.Check{
-		Rule:        "format(text, indent, width) for EVERY string over {a, b, space} of length <=10 (thorough 12) without leading space x remaining width 1..5 x indentation 0..2 (+ widths 6..9 on the strings of length <=8): termination (watchdog), every line = indentation tabs + at most width characters, the non-space characters equal the text's in order, a word is split only if longer than the width. Non-trivial = text that needs more than one line.",
+		Rule:        "format(text, indent, width) for EVERY string over {a, b, space} of length <=10 (thorough 12) without leading space x remaining width 1..5 x indentation 0..2 (+ widths 6..9 on the strings of length <=8), and every string of <=5 runes over {a, space, é (2 bytes), € (3 bytes)} x widths 1..6: termination (watchdog), every line = indentation tabs + at most width characters, the non-space characters equal the text's in order, a word is split only if longer than the width. Non-trivial = text that needs more than one line.",
 		Assumptions: []string{"single-line text without leading spaces and at least one character of room (the property's domain)"},
 		Run: func(r *eng.Run) {
 			maxLen := 10
@@ -203,6 +203,36 @@ func init() {
 				}
 			}
 			r.Par(len(prefixes), func(i int) { rec(append([]byte{}, prefixes[i]...)) })
+			// multi-byte characters (2 and 3 bytes): every string of <=5 runes over {a, space, é, €}
+			// (the property counts what format counts: bytes)
+			runes := []string{"a", " ", "é", "€"}
+			var recU func(s string, n int)
+			recU = func(s string, n int) {
+				if s != "" {
+					for ind := 0; ind <= 1; ind++ {
+						for w := 1; w <= 6; w++ {
+							c := c29Case{Text: s, Indent: ind, Width: w}
+							cur.Store(c)
+							tick.Add(1)
+							f := c29Run(c)
+							r.Eval(1)
+							if f != nil {
+								r.Report(f)
+								r.Outcome(f.Sig)
+							}
+						}
+					}
+				}
+				if n < 5 {
+					for _, ru := range runes {
+						if s == "" && ru == " " {
+							continue
+						}
+						recU(s+ru, n+1)
+					}
+				}
+			}
+			recU("", 0)
 			r.Sample(c29Case{Text: "ab  abba b", Indent: 1, Width: 3})
 			_ = total
 		},
